@@ -1016,19 +1016,37 @@ pub struct WireStat {
     pub sends: u64,
     pub recvs: u64,
     pub ctls: u64,
+    /// pending acknowledges the host must have honoured (derived from the wire: a received
+    /// packet with the current command's request id, status Success, kind PendingAck, reserved 0)
+    pub sleeps: u64,
+    /// sum of the time-outs those pending acknowledges announce
+    pub sleep_ms: u64,
     pub hash: u64,
 }
 
 impl WireStat {
     pub fn show(&self) -> String {
-        format!("s={} r={} c={} log={:016x}", self.sends, self.recvs, self.ctls, self.hash)
+        format!("s={} r={} c={} sl={}:{} log={:016x}", self.sends, self.recvs, self.ctls, self.sleeps, self.sleep_ms, self.hash)
     }
 }
 
 /// Digest of a wire log (same folding as `Driver.Ctl.logStat`).
 pub fn wire_stat(wire: &[Wire]) -> WireStat {
     let mut st = WireStat { hash: FNV_INIT_, ..WireStat::default() };
+    let mut cur_id: Option<u16> = None;
     for w in wire {
+        match w {
+            Wire::Send { data, .. } => cur_id = if data.len() >= 12 { Some(le(&data[10..12]) as u16) } else { None },
+            Wire::Recv { res: Ok(p), .. } => {
+                if let (Some(id), Some(a)) = (cur_id, decode_ack(p)) {
+                    if a.request_id == id && a.status == STATUS_SUCCESS && a.kind == ACK_PENDING && a.scd.len() >= 4 && le(&a.scd[0..2]) == 0 {
+                        st.sleeps += 1;
+                        st.sleep_ms += le(&a.scd[2..4]);
+                    }
+                }
+            }
+            _ => {}
+        }
         let h = st.hash;
         st.hash = match w {
             Wire::Send { data, timeout_ms, err } => {
